@@ -1,4 +1,5 @@
 import LSProofs.TextSpec
+import LSProofs.LoopSpec
 import LSProofs.Props.C03
 /-!
 # C01 — every operation behaves exactly like `String` on the same value
@@ -121,5 +122,28 @@ theorem clone (rf : Refuse) (w : World) (d s : Nat) (t : Bytes) (hw : Wf w) (hd 
     rw [ht] at h2
     unfold World.text at h2 ⊢
     rw [hgs] at h2; rw [hgd]; exact h2
+
+/-- `extend` from strs, `write!`, `+=`: every item consumed before a panic is appended, in order;
+a refused allocation stops between items (C05) -/
+theorem extend_strs (rf : Refuse) (w : World) (h : Nat) (t : Bytes) (items : List (Option Bytes)) (hw : Wf w)
+    (ht : w.text h = some t) (hv : ∀ s, some s ∈ items → Valid s) :
+    ((step rf w (.extendStrs h items)).2 = (if panics items then .panicCb else .ok .unit) ∧
+      (step rf w (.extendStrs h items)).1.text h = some (t ++ (consumed items).flatten)) ∨
+    ((step rf w (.extendStrs h items)).2 = .panicAlloc ∧
+      ∃ k, k < (consumed items).length ∧
+        (step rf w (.extendStrs h items)).1.text h = some (t ++ ((consumed items).take k).flatten)) :=
+  extendStrs_refines hw ht items hv
+
+/-- `collect` from strs -/
+theorem collect_strs (rf : Refuse) (w : World) (d : Nat) (items : List (Option Bytes)) (hw : Wf w)
+    (hd : w.get d = none) (hv : ∀ s, some s ∈ items → Valid s) :
+    ((step rf w (.collectStrs d items)).2 = .ok .unit ∧
+      (step rf w (.collectStrs d items)).1.text d = some (consumed items).flatten ∧ panics items = false) ∨
+    ((step rf w (.collectStrs d items)).2 ≠ .ok .unit ∧ (step rf w (.collectStrs d items)).1.get d = none) :=
+  collectStrs_refines hw hd items hv
+
+/-- the scan of `retain` used above *is* `String::retain` on the characters of the text -/
+theorem retain_scan_is_string_retain (t : Bytes) (hv : Valid t) (answers : List (Option Bool)) :
+    retainScan t.length t answers [] = Spec.retain t answers := retain_is_string_retain t hv answers
 
 end LS.C01
